@@ -20,6 +20,7 @@ type State struct {
 	boxed  map[types.Object]bool
 	dead   bool
 	names  map[string]string // term -> name of the constant defined equal to it on this path
+	epoch  int               // >0 after a call with arbitrary side effects: untouched components are no longer their initial value
 }
 
 type deferred struct {
@@ -29,7 +30,7 @@ type deferred struct {
 }
 
 func (s *State) clone() *State {
-	n := &State{alloc: s.alloc, boxed: s.boxed, dead: s.dead}
+	n := &State{alloc: s.alloc, boxed: s.boxed, dead: s.dead, epoch: s.epoch}
 	n.vars = make(map[types.Object]Val, len(s.vars))
 	for k, v := range s.vars {
 		n.vars[k] = v
@@ -123,6 +124,11 @@ func mergeStates(d *Decls, states []*State) *State {
 	res.pc = append([]string(nil), live[0].pc[:n]...)
 	res.guards = nil
 	res.names = nil // names defined inside one branch are not defined on the others
+	for _, s := range live {
+		if s.epoch > res.epoch {
+			res.epoch = s.epoch
+		}
+	}
 	extra := make([][]string, len(live))
 	for i, s := range live {
 		extra[i] = append([]string(nil), s.pc[n:]...)
@@ -206,6 +212,13 @@ func mergeStates(d *Decls, states []*State) *State {
 			t, ok := s.heap[k]
 			if !ok {
 				t = heapInit(d, k)
+				if s.epoch > 0 {
+					t = fmt.Sprintf("HE%d_%s", s.epoch, sanitize(k))
+					d.declare(t, fmt.Sprintf("(declare-const %s %s)", t, d.heapSorts[k]))
+				}
+			}
+			if s.epoch > res.epoch {
+				res.epoch = s.epoch
 			}
 			extra[i] = append(extra[i], eq(m, t))
 		}
@@ -289,6 +302,11 @@ func (s *State) heapGet(d *Decls, comp, sort string) string {
 		return t
 	}
 	t := heapInit(d, comp)
+	if s.epoch > 0 {
+		// first access after a call with arbitrary effects: not the initial value any more
+		t = fmt.Sprintf("HE%d_%s", s.epoch, sanitize(comp))
+		d.declare(t, fmt.Sprintf("(declare-const %s %s)", t, d.heapSorts[comp]))
+	}
 	s.heap[comp] = t
 	return t
 }
